@@ -19,7 +19,11 @@ CONSTANT NFixed   \* names of the proposed repairs (proposed/C02-fix-*.diff) tha
 F00 == Obj("float", "0.0")
 I2 == Obj("int", "2")
 SAB == Obj("str", "ab")
-XObjs == {F00, I2, SAB}
+\* ... and int sequences of length 2 and 3 for the sequence patterns of `match`
+T3I == Cont("tuple", <<I1, I0, I1>>)
+L2I == Cont("list", <<I1, I0>>)
+L3I == Cont("list", <<I1, I0, I1>>)
+XObjs == {F00, I2, SAB, T3I, L2I, L3I}
 NObjects == Objects \cup XObjs
 
 RECURSIVE SetToSeq(_)
